@@ -65,6 +65,8 @@ PENDING = {
         "da.ma.average(weights=, returned=True): sum of weights of a fully masked cell is 0.0, numpy.ma returns it masked",
     "reduce:std-var:ddof>=count&scalar-output:mask":
         "var/std over all axes with ddof >= number of unmasked elements gives nan, numpy.ma gives masked",
+    "reduce:count:0-d:AxisError@array/ma.py:_chunk_count":
+        "da.ma.count of a 0-d array whose mask is nomask passes axis=() to np.ma.count, which rejects it",
 }
 
 DT = ["bool", "int8", "int32", "int64", "uint8", "float32", "float64"]
@@ -110,7 +112,7 @@ def cases(tier, seed):
             d["op"] = rng.choice(MFUNCS)
             d["in_masked"] = rng.random() < 0.4
             d["v"] = [rng.choice((-2, -1, 0, 1, 2, 0.5, 3)), rng.choice((-2, -1, 0, 1, 2, 0.5, 3))]
-            d["vk"] = rng.choice(("scalar", "scalar", "dask", "numpy", "bcast"))
+            d["vk"] = rng.choice(("scalar", "scalar", "dask", "numpy", "bcast", "masked", "masked"))
             d["ck"] = rng.choice(("dask", "dask", "numpy", "scalar"))
         elif kind == "elem":
             d["sub"] = rng.choice(("bin", "bin", "rbin", "binuf", "un", "unuf"))
@@ -429,7 +431,12 @@ def _run(case, ctx):
             else:
                 vs = shape if vk != "bcast" else shape[1:]
                 v = A.rand_data(seed + 9, vs, "int64")
-                dv = v if vk == "numpy" else da.from_array(v, chunks=A.chunks_of_desc(case["mchunks"])[len(shape) - len(vs):])
+                vc = A.chunks_of_desc(case["mchunks"])[len(shape) - len(vs):]
+                dv = v if vk == "numpy" else da.from_array(v, chunks=vc)
+                if vk == "masked":      # the value carries a mask of its own: numpy.ma ORs it into the result
+                    vm = np.random.default_rng(seed + 10).random(vs) < 0.4
+                    v = np.ma.masked_array(v, vm)
+                    dv = da.ma.masked_array(dv, da.from_array(vm, chunks=vc))
             _check(ctx, case, "mfunc", op, _flags(inp, "value=" + vk, zero, zd), lambda: getattr(np.ma, op)(mx, v),
                    lambda: getattr(da.ma, op)(dmx, dv))
         ctx.sample = {"kind": kind, "op": op, "chunks": case["chunks"], "allmasked_chunk": allm}
@@ -457,6 +464,10 @@ def _run(case, ctx):
         s2 = tuple(case["s2"])
         if yk == "scalar":
             y = dy = case["scalar"]
+            if dtype == "uint8" and y == -1:
+                # Calibration: NumPy proper raises OverflowError for uint8 <op> -1 (weak scalars); numpy.ma converts the
+                # scalar to an int64 array first.  Same Python-scalar quirk as for the dtype.
+                raise _Reject("numpy: Python integer -1 out of bounds for uint8 (numpy.ma scalar-conversion quirk)")
         elif yk in ("masked", "npmasked"):
             y, dy, allm2 = _masked_input(seed + 1, s2, case["d2"], case["c2"], case["c2"], case["mk2"], "ctor")
             if yk == "npmasked":
@@ -507,7 +518,7 @@ def _run(case, ctx):
         dd = "ddof>=count" if (ddof and (cnt - ddof <= 0).any()) else ""
         if empty:
             ctx.count("reduce_with_fully_masked_cell")
-        flags = _flags(empty, dd, "scalar-output" if (dd and cnt.ndim == 0) else "")
+        flags = _flags(empty, dd, "scalar-output" if (dd and cnt.ndim == 0) else "") if (empty or dd) else _flags(zd)
         if op == "count":
             _check(ctx, case, "reduce", "count", flags, lambda: np.ma.count(mx, **kw),
                    lambda: da.ma.count(dmx, split_every=se, **kw))
